@@ -705,6 +705,8 @@ impl Actor {
                 }
             }
         };
+        #[cfg(feature = "verif-hooks")]
+        crate::verif::actor_exit_pause();
 
         if let Err(cause) = self.store.flush() {
             warn!(?cause, "failed to flush store");
